@@ -14,5 +14,6 @@ nv=$(grep -c "^VIOLATION" /tmp/runseed.$$)
 echo "SEEDED $id check=$chk tier=$tier rc=$rc violations=$nv"
 grep -A1 "^VIOLATION" /tmp/runseed.$$ | head -4 | cut -c1-400
 grep "MACHINERY" /tmp/runseed.$$ | head -3
+[ "$rc" = "2" ] && { echo "=== $id $chk $(date)"; tail -30 /tmp/runseed.$$; } >> /tmp/runseed_errors.log
 rm -f /tmp/runseed.$$
 exit $rc
